@@ -39,7 +39,7 @@ ASSUMPTIONS = [
   "is not judged - the reader may agree with either reading; likewise whether a `set` child takes part in the implicit duration of its "
   "parent (both readings of SMIL endsync accepted)",
   "not generated / not judged: precedence among several conflicting nested style children of one region or several initial elements for "
-  "one property; `set` or `br` as a direct child of a sequential container; the `t` metric without ttp:tickRate (documents "
+  "one property; `set` as a direct child of a sequential container (`br` there is judged, but only on the 54 enumerated documents of directed_docs(), never drawn at random); the `t` metric without ttp:tickRate (documents "
   "that need it after the removal of a corrupted attribute are skipped; frames without ttp:frameRate use the TTML2 default of 30); both ittp:aspectRatio and "
   "ttp:displayAspectRatio; end < begin where the implicit duration of a container or the begin of a seq sibling would depend on it; "
   "dangling region references; regions without xml:id; duplicate xml:id; tts:ruby by referential styling; set with several style "
